@@ -200,6 +200,7 @@ type Src struct {
 	// CloseDelay: Close takes this much simulated time.
 	CloseDelay time.Duration
 	CloseRet   []uint64 // event numbers at which Close returned
+	CloseRetAt []int64  // ... and the simulated instants
 	NextInv   []uint64 // event number of every Next invocation
 
 	Pos        int
@@ -305,6 +306,7 @@ func (s *Src) Close() {
 		sim.Sleep(s.CloseDelay, "src.Close-slow:"+s.Name)
 	}
 	s.CloseRet = append(s.CloseRet, sim.Seq())
+	s.CloseRetAt = append(s.CloseRetAt, int64(sim.Now()))
 }
 
 // WaitDone waits for d of simulated time (d < 0: for ever) or until ctx is done, whichever is
